@@ -49,6 +49,10 @@ def _frame(p2p, kind, tag):
 
 
 def _proj_item(item):
+    return _proj_item_raw(item)
+
+
+def _proj_item_raw(item):
     try:
         peer, command, payload = item
         kind = {v: k for k, v in CMD.items()}.get(command, command.decode("latin1") if isinstance(command, bytes) else str(command))
@@ -111,13 +115,42 @@ class _Sock:
     def sendall(self, data):
         self.sched.point("send")
         self.sent.append(_proj_sent(bytes(data)))
-        self.sched.emit(op="send", p=self.sched.tid(), to=self.peer, m=self.sent[-1])
+        self.raw_sent = getattr(self, "raw_sent", []) + [bytes(data)]
+        if self.sched.tid() is not None:      # sends made by the controller thread (connect_peer) are not thread steps
+            self.sched.emit(op="send", p=self.sched.tid(), to=self.peer, m=self.sent[-1])
 
     def close(self):
         self.closed = True
 
 
-def _make_qdeque(sched):
+class _ConnSock(_Sock):
+    """scripted socket as returned by socket.socket(): connection set-up methods, and end-of-stream exits the real PeerThread"""
+
+    def connect(self, addr):
+        self.addr = addr
+
+    def setblocking(self, flag):
+        pass
+
+    def settimeout(self, t):
+        pass
+
+    def getsockname(self):
+        return ("127.0.0.1", 50000 + self.peer)
+
+    def recv(self, n):
+        if self.off >= len(self.stream):
+            self.sched.emit(op="exit", p=self.peer)
+            self.thread.exit()          # PeerThread.exit(): sets the real exit_event
+            raise TimeoutError()
+        return _Sock.recv(self, n)
+
+
+def _make_qdeque(sched, off=0):
+    def _proj_item(item, _p=_proj_item_raw):
+        it = _p(item)
+        return [it[0] + off, it[1], it[2]] if it[0] >= 0 else it
+
     class QDeque(deque):
         def append(self, item):
             sched.point("append")
@@ -171,13 +204,16 @@ def _make_rlist(sched, items):
 
 
 class Rig:
-    """One execution of the real recv_loop threads for a script {peer: [(kind, tag), ...]}."""
+    """One execution of the real recv_loop threads for a script {peer: [(kind, tag), ...]}.
+    connect=True attaches the peers through the real Node.connect_peer (scripted socket.socket, PeerThread subclass
+    registered with the scheduler): the node's own version message goes out before the receive thread starts."""
 
-    def __init__(self, script):
+    def __init__(self, script, connect=False):
         import bits.p2p as p2p
 
         self.p2p = p2p
         self.script = script
+        self.connect = connect
         self.peers = sorted(script)
         self.sched = sched = Sched()
 
@@ -194,20 +230,71 @@ class Rig:
                     object.__setattr__(self, name, value)
 
         node = NodeX()
-        node._msg_queue = _make_qdeque(self.sched)
+        node._msg_queue = _make_qdeque(self.sched, 1 if connect else 0)
         node._registered_commands_to_handle = _make_rlist(self.sched, list(node._registered_commands_to_handle))
         self.socks = {}
-        for p in self.peers:
-            th = _FakeThread()
-            frames = [_frame(p2p, k, n) for k, n in script[p]]
-            self.socks[p] = _Sock(self.sched, p, script[p], frames, th)
-            node._peer_sockets[p] = self.socks[p]
-            node._peer_threads[p] = th
-            node._peer_data[p] = {}
         self.node = node
-        node._rig_ready = True
-        self.threads = [self.sched.run_thread(p, node.recv_loop, p) for p in self.peers]
+        if not connect:
+            for p in self.peers:
+                th = _FakeThread()
+                frames = [_frame(p2p, k, n) for k, n in script[p]]
+                self.socks[p] = _Sock(self.sched, p, script[p], frames, th)
+                node._peer_sockets[p] = self.socks[p]
+                node._peer_threads[p] = th
+                node._peer_data[p] = {}
+            node._rig_ready = True
+            self.threads = [self.sched.run_thread(p, node.recv_loop, p) for p in self.peers]
+        else:
+            self._connect_all(node, p2p, sched)
         self.sched.settle(self.peers)
+
+    def _connect_all(self, node, p2p, sched):
+        """peers 1..P are the node's peer numbers 0..P-1 (connect_peer numbers them by arrival)"""
+        rig = self
+        pending = []
+
+        class SPeerThread(p2p.PeerThread):
+            def run(self):
+                tid = self._args[0] + 1
+                sched.tls.tid = tid
+                try:
+                    super().run()
+                except BaseException as e:  # noqa
+                    sched.emit(op="crash", p=tid, exc=type(e).__name__)
+                finally:
+                    with sched.cv:
+                        sched.finished.add(tid)
+                        sched.parked.pop(tid, None)
+                        sched.cv.notify_all()
+
+        class _ExitProxy:
+            def __init__(self, sock):
+                self.sock = sock
+
+        def fake_socket(*a, **kw):
+            p = pending.pop(0)
+            frames = [_frame(p2p, k, n) for k, n in rig.script[p]]
+            holder = _FakeThread()
+            sk = _ConnSock(sched, p, rig.script[p], frames, holder)
+            rig.socks[p] = sk
+            return sk
+
+        class _SockMod:
+            socket = staticmethod(fake_socket)
+
+        orig_sock, orig_pt = p2p.socket, p2p.PeerThread
+        p2p.socket, p2p.PeerThread = _SockMod, SPeerThread
+        self.threads = []
+        try:
+            node._rig_ready = True
+            for p in self.peers:
+                pending.append(p)
+                node.connect_peer("203.0.113.%d" % p, 8333)
+                th = node._peer_threads[p - 1]
+                self.socks[p].thread = th            # the scripted socket ends the loop through the real exit_event
+                self.threads.append(th)
+        finally:
+            p2p.socket, p2p.PeerThread = orig_sock, orig_pt
 
     def enabled(self):
         return self.sched.enabled()
@@ -217,10 +304,14 @@ class Rig:
 
     def project(self):
         vd = []
+        off = 1 if self.connect else 0
         for p in self.peers:
-            v = self.node._peer_data.get(p, {}).get(b"version")
+            v = self.node._peer_data.get(p - off, {}).get(b"version")
             vd.append(v.get("start_height", -1) if isinstance(v, dict) else 0)
-        return {"queue": [_proj_item(it) for it in list(self.node._msg_queue)],
+        q = [_proj_item(it) for it in list(self.node._msg_queue)]
+        if off:
+            q = [[it[0] + 1, it[1], it[2]] if it[0] >= 0 else it for it in q]
+        return {"queue": q,
                 "sent": [self.socks[p].sent[:] for p in self.peers], "vdata": vd}
 
     def close(self):
@@ -229,10 +320,10 @@ class Rig:
             t.join(timeout=2)
 
 
-def run_schedule(script, prefix):
+def run_schedule(script, prefix, connect=False):
     """Run one complete execution: follow `prefix`, then always the lowest enabled thread.
     Returns (record, alternatives) where alternatives are the unexplored sibling prefixes."""
-    rig = Rig(script)
+    rig = Rig(script, connect=connect)
     sched, alts = [], []
     try:
         i = 0
@@ -258,13 +349,13 @@ def run_schedule(script, prefix):
         rig.close()
 
 
-def explore(script, limit=None):
+def explore(script, limit=None, connect=False):
     """All interleavings of the real threads for this script (stateless DFS)."""
     out, stack, blocked = [], [[]], 0
     while stack:
         prefix = stack.pop()
         try:
-            rec, alts = run_schedule(script, prefix)
+            rec, alts = run_schedule(script, prefix, connect)
         except Blocked:
             blocked += 1
             continue
@@ -276,24 +367,25 @@ def explore(script, limit=None):
 
 
 def _explore_job(args):
-    script, limit, seed = args
+    script, limit, seed = args[:3]
+    connect = args[3] if len(args) > 3 else False
     vlib.bind_repo()
     import logging
     logging.disable(logging.CRITICAL)
-    out, blocked = explore(script, limit)
+    out, blocked = explore(script, limit, connect)
     capped = bool(limit and len(out) >= limit)
     if capped:  # space larger than the cap (e.g. code with more scheduling points): add seeded random schedules
         rnd = random.Random(seed)
         for _ in range(limit):
             try:
-                out.append(random_execution(script, rnd))
+                out.append(random_execution(script, rnd, connect))
             except Blocked:
                 blocked += 1
     return out, blocked, capped
 
 
-def random_execution(script, rnd):
-    rig = Rig(script)
+def random_execution(script, rnd, connect=False):
+    rig = Rig(script, connect=connect)
     sched = []
     try:
         while True:
@@ -320,7 +412,8 @@ def mk_script(kinds_by_peer):
 # ----------------------------------------------------------------------------- stages
 def _stage_a(ctx):
     req = ("Recv", "Finish", "Test", "Enqueue", "Handle")
-    models = [("MC_NodeQueue_22.cfg", "Peers={1,2} MsgsPerPeer=2 6 kinds")]
+    models = [("MC_NodeQueue_22.cfg", "Peers={1,2} MsgsPerPeer=2 6 kinds"),
+              ("MC_NodeQueue_22_conn.cfg", "same, peers attached through connect_peer (our version message first)")]
     if ctx.tier == "thorough":
         models += [("MC_NodeQueue_23.cfg", "Peers={1,2} MsgsPerPeer=3 5 kinds"),
                    ("MC_NodeQueue_32.cfg", "Peers={1,2,3} MsgsPerPeer=2 4 kinds")]
@@ -433,6 +526,7 @@ def _stage_c(ctx):
     _binding_selftest(ctx, recs)
     ctx.sample({"stage": "C", "script": recs[len(recs) // 2]["script"], "schedule": recs[len(recs) // 2]["schedule"],
                 "events": [e["op"] + str(e.get("p")) for e in recs[len(recs) // 2]["ev"]]})
+    _stage_c_connect(ctx)
     # larger scope, sampled: 3 peers x up to 3 messages, seeded random schedules
     import logging
     logging.disable(logging.CRITICAL)
@@ -443,6 +537,31 @@ def _stage_c(ctx):
         script = mk_script({p: [rnd.choice(KINDS) for _ in range(rnd.randint(1, 3))] for p in (1, 2, 3)})
         big.append(random_execution(script, rnd))
     _validate(ctx, big, "Trace_NodeQueue_3.cfg", "Trace_NodeQueue (3 peers x 1..3 msgs, random schedules)")
+
+
+def _stage_c_connect(ctx):
+    """Extension beyond the listed property: peers attached through the real Node.connect_peer (handshake's first half: our
+    version message is the first thing a peer gets, verack only answers the peer's version)."""
+    hs = [("version", "verack"), ("verack", "version"), ("version", "ping"), ("inv", "version"), ("version", "inv"), ("ping", "verack")]
+    scripts = [mk_script({1: list(a), 2: list(b)}) for a in hs[:3] for b in hs[1:4]] if ctx.tier == "quick" else \
+              [mk_script({1: list(a), 2: list(b)}) for a in hs for b in hs]
+    with mp.get_context("fork").Pool(16) as pool:
+        res = pool.map(_explore_job, [(s, 1500, ctx.seed + i, True) for i, s in enumerate(scripts)], chunksize=1)
+    recs = [r for out, _, _ in res for r in out]
+    # the version message connect_peer sent must be a well-formed version payload for this node
+    import bits.p2p as p2p
+    rig = Rig(scripts[0], connect=True)
+    try:
+        sent1 = getattr(rig.socks[1], "raw_sent", [])
+        first = sent1[0] if sent1 else b""
+        parsed = vlib.run_call(p2p.parse_version_payload, first[24:])
+        okv = first[4:16].rstrip(b"\0") == b"version" and "ok" in parsed and parsed["ok"].get("protocol_version") == rig.node.protocol_version \
+            and parsed["ok"].get("addr_recv_port") == 8333 and parsed["ok"].get("start_height") == 0
+        if not okv:
+            ctx.violation("connect-version-message-malformed", {"stage": "C", "frame": first.hex(), "parsed": str(parsed)})
+    finally:
+        rig.close()
+    _validate(ctx, recs, "Trace_NodeQueue_conn.cfg", "Trace_NodeQueue (connect_peer handshake, 2 peers, exhaustive schedules)")
 
 
 def _binding_selftest(ctx, recs):
